@@ -390,6 +390,46 @@ def clean_sum(g0):
     return {"extra": [], "datakeys": True, "changed": [], "gone": [], "types": list(g0["types"]), "prefixes_same": True}
 
 
+# ---------------------------------------------------------------- translator
+EXTRA_OBLIGATIONS = ["SciVerif.C09.C09_real_tables_wf", "SciVerif.C09.C09_restored_real"]
+
+
+def lean_str(x):
+    return json.dumps(x, ensure_ascii=False)
+
+
+def lean_row(r):
+    df = ".none" if r[2] is None else ("(.str %s)" % lean_str(r[2]["str"]) if "str" in r[2] else "(.ty %s)" % lean_str(r[2]["ty"]))
+    pf = ".no" if r[4] is False else (".all" if r[4] is True else "(.list [%s])" % ", ".join(lean_str(x) for x in r[4]))
+    return "⟨%s, %s, %s, %s, %s⟩" % (lean_str(r[0]), lean_str(r[1]), df, lean_str(r[3]), pf)
+
+
+def gen_tables(ctx):
+    """Re-extracts the pristine process-wide tables from a fresh interpreter into Lean."""
+    from harness import core
+    w = WorkerProc(core.REPO)
+    try:
+        g0 = w.g0
+    finally:
+        w.close()
+    for k, r in g0["data"]:
+        if isinstance(r[4], dict):
+            raise ValueError("row %s: prefixes field %s is outside the model" % (k, r[4]))
+    out = ["import SciVerif.Model.C09", "",
+           "/-! GENERATED by harness/props/c09.py (gen_tables) from the live UNIT_STANDARD / UNIT_TYPES /",
+           "UNIT_PREFIXES of a fresh interpreter. Do not edit. -/", "namespace SciVerif.C09", "",
+           "def realKeys : List Sym := [" + ", ".join(lean_str(k) for k in g0["keys"]) + "]", "",
+           "def realData : List (Sym × Row) := ["]
+    out.append(",\n".join("  (%s, %s)" % (lean_str(k), lean_row(r)) for k, r in g0["data"]))
+    out += ["]", "", "def realTypes : List Ty := [" + ", ".join(lean_str(t) for t in g0["types"]) + "]", "",
+            "def realPrefixes : List String := [" + ", ".join(lean_str(t) for t in g0["prefixes"]) + "]", "",
+            "/-- the process-wide tables as they are when the library has just been imported -/",
+            "def realG : Globals := ⟨⟨realKeys, realData⟩, realTypes, realPrefixes⟩", "",
+            "end SciVerif.C09", ""]
+    path = core.LEAN / "SciVerif" / "Generated" / "C09Tables.lean"
+    return ["Generated/C09Tables.lean"] if core.write_if_changed(path, "\n".join(out)) else []
+
+
 # ---------------------------------------------------------------- symbol universe
 def universe(g0):
     """Custom symbols usable in `use`: alphabetic, not a key, and no key is a suffix of them."""
@@ -474,7 +514,7 @@ class Gen:
         if r.random() < 0.5:
             i = r.randint(0, len(units))
             kind = r.choice(["existing", "outer", "clash", "clash-custom", "rev", "badprefix", "nomag", "nodim",
-                             "nomag-type", "other", "brokenq", "dup-dict-type"])
+                             "nomag-type", "other", "brokenq"])
             ent = None
             if kind == "existing":
                 ent = [r.choice(self.uni["existing"]), self.good_def()]
@@ -740,7 +780,9 @@ def prog_stream(ctx, worker, g0, count):
         ctx.count("prog.used_ok", sum(1 for e in r["events"] if isinstance(e, list) and e[0] == "used" and e[2]))
         ctx.count("prog.used_fail", sum(1 for e in r["events"] if isinstance(e, list) and e[0] == "used" and not e[2]))
         # impl vs spec
-        for sig, what in spec_violations(r, clean):
+        # one defect is reported once: only the first deviation of a case counts (later ones are
+        # consequences: the worker restores the tables only at the end of the case)
+        for sig, what in spec_violations(r, clean)[:1]:
             if sig in seen_sig:
                 continue
             seen_sig.add(sig)
@@ -759,29 +801,36 @@ def prog_stream(ctx, worker, g0, count):
             ctx.disagreement("prog", {"prog": p}, "impl %s model %s" % (json.dumps(mine)[:600], json.dumps(theirs)[:600]))
 
 
-DIP_UNITS = ["m", "cm", "s", "kg", "km/s", "N*m", "J"]
+DIP_DEF_UNITS = [("m", 1.0), ("km", 1e3), ("cm", 1e-2), ("m", 1.0)]
 
 
 def gen_dip(rng):
-    """Returns dict(text, symbols, expect_ok (True/False/None), expect(dict of name -> value in m))."""
+    """Returns dict(text, symbols, expect_ok (True/False/None), expect(dict of name -> value in m)).
+    Every DIP call site that opens a unit scope is exercised with a body that completes and one that raises."""
     names = rng.sample(["x", "yy", "len", "uA", "q_1", "Zz"], rng.randint(1, 3))
     lines, symbols, expect = [], [], {}
     vals = {}
     for n in names:
         v = rng.choice([2, 0.5, 3, 10])
-        lines.append("$unit %s = %s m" % (n, v))
+        u, f = rng.choice(DIP_DEF_UNITS)
+        lines.append("$unit %s = %s %s" % (n, v, u))
         symbols.append("[%s]" % n)
-        vals[n] = float(v)
+        vals[n] = float(v) * f
     ok = True
     for i, n in enumerate(names):
         k = rng.choice([1, 2, 4])
         lines.append("a%d float = 1 m" % i)
         lines.append("a%d = %d [%s]" % (i, k, n))
         expect["a%d" % i] = k * vals[n]
-    mode = rng.choice(["ok", "ok", "unknown-unit", "clash-const", "dup-unit", "bad-conv", "expr", "undefined-ref",
-                       "chain", "cond", "int"])
-    if mode == "unknown-unit":
+    mode = rng.choice(["ok", "ok", "unknown-unit", "int-unknown", "clash-const", "dup-unit", "bad-conv", "expr",
+                       "expr-fail", "undefined-ref", "chain", "unit-fail", "cond", "cond-fail", "cond-unmet",
+                       "case", "case-fail", "int"])
+    n0 = names[0]
+    if mode == "unknown-unit":      # node_float.parse raises inside its scope
         lines.insert(rng.randint(len(names), len(lines)), "b float = 3 [nope]")
+        ok = False
+    elif mode == "int-unknown":     # node_integer.parse
+        lines.insert(rng.randint(len(names), len(lines)), "b int = 3 [nope]")
         ok = False
     elif mode == "clash-const":
         # `[c]` is a built-in constant: every later scope fails at its registration, after k>=0 others succeeded
@@ -790,29 +839,53 @@ def gen_dip(rng):
         lines.append("b float = 3 m")
         ok = False
     elif mode == "dup-unit":
-        lines.insert(len(names), "$unit %s = 7 s" % names[0])
+        lines.insert(len(names), "$unit %s = 7 s" % n0)
         ok = False
-    elif mode == "bad-conv":
+    elif mode == "bad-conv":        # NumberType.convert raises inside its scope
         lines.append("a0 = 1 s")
         ok = False
-    elif mode == "expr":
-        lines.append("e float = ('1 [%s] + 1 m') m" % names[0])
-        ok = None      # judged by C18
+    elif mode == "expr":            # numerical_solver.solve
+        lines.append("e float = ('1 [%s] + 1 m') m" % n0)
+        ok = None      # value judged by C18
+    elif mode == "expr-fail":
+        lines.append("e float = ('1 [nope] + 1 m') m")
+        ok = False
     elif mode == "undefined-ref":
         lines.append("r float = {?nothing} m")
         ok = False
-    elif mode == "chain":
-        lines.insert(len(names), "$unit ch = 3 [%s]" % names[0])
+    elif mode == "chain":           # node_unit.parse uses an earlier custom unit
+        lines.insert(len(names), "$unit ch = 3 [%s]" % n0)
         symbols.append("[ch]")
         lines.append("c0 float = 1 m")
         lines.append("c0 = 2 [ch]")
-        expect["c0"] = 6 * vals[names[0]]
-    elif mode == "cond":
-        lines.append("d float = 3 m")
-        lines.append("  !condition ('{?} > 1 [%s]')" % names[0])
+        expect["c0"] = 6 * vals[n0]
+    elif mode == "unit-fail":       # node_unit.parse raises inside its scope
+        lines.insert(len(names), "$unit ch = 3 [nope]")
+        ok = False
+    elif mode == "cond":            # logical_solver.solve
+        lines.append("d float = 3000 m")
+        lines.append("  !condition ('{?} > 0.001 [%s]')" % n0)
         ok = None      # judged by C16
+    elif mode == "cond-fail":
+        lines.append("d float = 3 m")
+        lines.append("  !condition ('{?} > 1 [nope]')")
+        ok = False
+    elif mode == "cond-unmet":
+        lines.append("d float = 3 m")
+        lines.append("  !condition ('{?} > 70000 [%s]')" % n0)
+        ok = False
+    elif mode == "case":
+        lines.append("@case ('{?a0} > 0.0001 [%s]')" % n0)
+        lines.append("  z int = 1")
+        lines.append("@end")
+        ok = None      # judged by C15
+    elif mode == "case-fail":
+        lines.append("@case ('{?a0} > 1 [nope]')")
+        lines.append("  z int = 1")
+        lines.append("@end")
+        ok = False
     elif mode == "int":
-        lines.append("i int = 3 [%s]" % names[0])
+        lines.append("i int = 3 [%s]" % n0)
         ok = None
     case = {"text": "\n".join(lines) + "\n", "symbols": symbols, "expect_ok": ok, "expect": expect if ok else {}, "mode": mode}
     if rng.random() < 0.3:
@@ -823,13 +896,54 @@ def gen_dip(rng):
     return case
 
 
+def trace_to_prog(trace):
+    """The UnitEnvironment constructions / closes recorded during a DIP parse, as a program for the
+    model plus the observed (extra keys, UNIT_TYPES) after every construction and every scope end.
+    Returns (prog, observed) or None when the trace is not well nested."""
+    root = {"children": []}
+    stack = [root]
+    observed = []
+    for t in trace:
+        if t[0] == "init":
+            if t[1] is None:
+                return None
+            stack.append({"units": t[1], "state": "init", "children": []})
+        elif t[0] == "init-end":
+            fr = stack[-1]
+            if fr.get("state") != "init":
+                return None
+            ok = all(sym in t[1] for sym, _ in fr["units"])
+            observed.append(["entered", ok, t[1], t[2]])
+            if ok:
+                fr["state"] = "open"
+            else:
+                stack.pop()
+                stack[-1]["children"].append(["attempt", ["scope", fr["units"], "skip"]])
+        elif t[0] == "close-end":
+            fr = stack[-1]
+            if fr.get("state") == "init":
+                continue                      # the undo inside a failing __init__
+            if fr.get("state") != "open":
+                return None
+            stack.pop()
+            observed.append(["exited", t[1], t[2]])
+            body = fr["children"]
+            stack[-1]["children"].append(["scope", fr["units"],
+                                          "skip" if not body else (body[0] if len(body) == 1 else ["seq"] + body)])
+    if len(stack) != 1:
+        return None
+    ch = root["children"]
+    return ("skip" if not ch else (ch[0] if len(ch) == 1 else ["seq"] + ch)), observed
+
+
 def dip_stream(ctx, worker, g0, count):
-    from harness.util import rel_close
+    from harness.util import rel_close, shrink_list
     clean = clean_sum(g0)
     cases = list(load_corpus()["dip"])
     for _ in range(count):
         cases.append(gen_dip(ctx.rng))
     seen_sig = set()
+    traced = []
     for c in cases:
         r = worker.ask({"kind": "dip", "text": c["text"], "symbols": c.get("symbols", []), "outer": c.get("outer")})
         ctx.case(["dip", c["text"], bool(c.get("outer"))], "$unit" in c["text"],
@@ -859,11 +973,59 @@ def dip_stream(ctx, worker, g0, count):
                     if not (isinstance(got, list) and got[1] == "m" and rel_close(got[0], v)):
                         sigs.append(("usable:dip", "node %s should be %s m (custom unit used in an assignment), got %s" % (k, v, got)))
                         break
-        for sig, what in sigs:
+        for sig, what in sigs[:1]:
             if sig in seen_sig:
                 continue
             seen_sig.add(sig)
+            # minimal replay: drop lines of the text while the same deviation remains
+            def fails(lines, sig=sig, c=c):
+                rr = worker.ask({"kind": "dip", "text": "\n".join(lines) + "\n", "symbols": c.get("symbols", []),
+                                 "outer": c.get("outer")})
+                if "error" in rr:
+                    return False
+                if sig.startswith("leak:dip"):
+                    return rr["final"] != clean or not rr["deep_same"]
+                if sig == "outside:dip":
+                    return bool(rr["outside_known"])
+                return False
+            if not sig.startswith("usable"):
+                small = shrink_list(c["text"].rstrip("\n").split("\n"), fails, max_steps=60)
+                replay["text"] = "\n".join(small) + "\n"
             ctx.violation(sig, what, replay)
+        # the scopes the DIP call sites opened, replayed on the model
+        tp = trace_to_prog(r["trace"])
+        if tp is None:
+            ctx.count("dip.trace_not_nested")
+            if not sigs:
+                ctx.disagreement("dip-trace", {"text": c["text"], "outer": c.get("outer")},
+                                 "UnitEnvironment constructions/closes during the parse are not well nested: %s" %
+                                 json.dumps([t[:1] + t[-2:] for t in r["trace"]])[:500])
+        else:
+            traced.append((c, tp[0], tp[1]))
+
+
+    # model run of the recorded scope sequences
+    G = {"keys": g0["keys"], "data": g0["data"], "types": g0["types"], "prefixes": g0["prefixes"]}
+    model = []
+    B = 100
+    reqs = [{"p": "C09", "k": "run", "G": G, "progs": [t[1] for t in traced[i:i + B]]} for i in range(0, len(traced), B)]
+    for ans in ctx.driver.ask_many(reqs):
+        if "ok" not in ans:
+            ctx.disagreement("dip-trace", {"driver": ans}, "driver error")
+            return
+        model += ans["ok"]
+    for (c, prog, observed), m in zip(traced, model):
+        mev = []
+        for e in m["events"]:
+            if isinstance(e, list) and e[0] == "entered":
+                mev.append(["entered", e[1], e[2].get("extra"), e[2]["types"]])
+            elif isinstance(e, list) and e[0] == "exited":
+                mev.append(["exited", e[2].get("extra"), e[2]["types"]])
+        ctx.count("dip.trace_events", len(observed))
+        if mev != observed:
+            ctx.disagreement("dip-trace", {"text": c["text"], "outer": c.get("outer")},
+                             "scopes opened by the DIP call sites: observed %s model %s" %
+                             (json.dumps(observed)[:500], json.dumps(mev)[:500]))
 
 
 def correspond(ctx):
